@@ -10,6 +10,7 @@ def run(prog, rec, tier):
     A.block('enc')
     A.block('dec')
     A.key_load()
+    A.ownership()
     rec.extra['explanation'] = (
         'Tier 1: the five constant tables equal values derived from first principles (GF(2^8) inverse + affine map, its inverse '
         'permutation, discrete log/antilog base 3 with the doubled antilog range, round constants). Tier 2: the key-schedule '
